@@ -1,15 +1,16 @@
 #!/bin/bash
-# usage: tools/run_all.sh quick|thorough [seed]   - runs every claimed check, prints a summary
-TIER=${1:-quick}; SEED=${2:-1}
+# usage: tools/run_all.sh quick|thorough [seed] [Cnn ...]   - runs every claimed check (or the listed ones, in that order), prints a summary
+TIER=${1:-quick}; SEED=${2:-1}; shift; shift
 cd "$(dirname "$0")/.."
 props=$(python3 -c "import json;print(' '.join(c['property_id'] for c in json.load(open('MANIFEST.json'))['checks']))")
+[ $# -gt 0 ] && props="$*"
 rc_all=0
 for p in $props; do
   start=$(date +%s)
-  VERIF_SEED=$SEED ./check $p --tier $TIER > /tmp/run_all_$p.log 2>&1
+  VERIF_SEED=$SEED ./check $p --tier $TIER > /tmp/run_all_${TIER}_${SEED}_$p.log 2>&1
   rc=$?
   end=$(date +%s)
-  echo "$p tier=$TIER seed=$SEED exit=$rc $((end-start))s :: $(grep -v '^KNOWN-FINDING' /tmp/run_all_$p.log | grep -m1 'tier=' | cut -c1-160)"
-  if [ $rc -ne 0 ]; then rc_all=1; grep -v '^KNOWN-FINDING' /tmp/run_all_$p.log | tail -25 | cut -c1-400; fi
+  echo "$p tier=$TIER seed=$SEED exit=$rc $((end-start))s :: $(grep -v '^KNOWN-FINDING' /tmp/run_all_${TIER}_${SEED}_$p.log | grep -m1 'tier=' | cut -c1-160)"
+  if [ $rc -ne 0 ]; then rc_all=1; grep -v '^KNOWN-FINDING' /tmp/run_all_${TIER}_${SEED}_$p.log | tail -25 | cut -c1-400; fi
 done
 exit $rc_all
